@@ -113,7 +113,7 @@ func runValidate(c *core.Ctx) []core.Obligation {
 				var src ssa.Value
 				if bi, ok := call.Common().Value.(*ssa.Builtin); ok && bi.Name() == "append" && len(call.Common().Args) == 2 && derivesFromValue(call.Common().Args[0], bp) {
 					src = call.Common().Args[1]
-				} else if f := staticCallee(call.Common()); f != nil && c.InRepo(f) && len(call.Common().Args) == 2 && call.Common().Args[0] == ssa.Value(bp) && isByteSliceType(call.Common().Args[1].Type()) {
+				} else if f := staticCallee(call.Common()); f != nil && c.InRepo(f) && len(call.Common().Args) >= 2 && call.Common().Args[0] == ssa.Value(bp) && isByteSliceType(call.Common().Args[1].Type()) {
 					src = call.Common().Args[1]
 				}
 				if src == nil {
